@@ -286,7 +286,8 @@ def write_evidence(mod, ctx, wall, n_viol):
         "evaluations": ctx.evaluations,
         "distinct_nontrivial": len(ctx.nontrivial),
         "rule": mod.RULE,
-        "samples": [ctx.samples[h] for h in sorted(ctx.samples)],
+        "samples": [ctx.samples[h] for h in sorted(ctx.samples)]
+        or [v[0] for v in list(ctx.violations.values())[:3]],
         "classes": dict(sorted(ctx.classes.items())),
         "known_findings_hit": dict(ctx.known_hits),
     }
@@ -360,7 +361,11 @@ def main(argv):
         replay_tier(mod, ctx)
         mod.run(ctx)
         wall = time.time() - t0
-        write_evidence(mod, ctx, wall, len(ctx.violations))
+        try:
+            write_evidence(mod, ctx, wall, len(ctx.violations))
+        except HarnessError:
+            if not ctx.violations:
+                raise
         for sig, n in sorted(ctx.known_hits.items()):
             print(f"KNOWN-FINDING: property={prop_id} {known[sig]['what']} [{sig}] ({n} cases)")
         rc = 0
